@@ -131,6 +131,11 @@ func (c *SumDiffCommand) sumDiffItem(item string, tow io.Writer) error {
 		return errors.New("retentions unmatch between src and dest whisper files")
 	}
 
+	if !sumTsList.AllEqualTimeRangeAndStep(destTsList) {
+		return errors.New("timeseries time ranges and steps are unalike. " +
+			"retry reading input files before diffing")
+	}
+
 	sumPlDif, destPlDif := sumTsList.Diff(destTsList)
 	if sumPlDif.AllEmpty() && destPlDif.AllEmpty() {
 		return nil
